@@ -454,7 +454,8 @@ def f_rare_diagnostic(it, g, pos, spell):
         if any(a.kind == "where_clause" and a.container() == bare for a in it.attrs):
             return None
         _ins(it.attrs, pos, Instr("where_clause", "where_clause", container=bare, preds=f"T: W{k}", spelling=spell))
-        return Fault("rare", form, [f"Type '{bare}' doesn't match any type specified in trait instructions."])
+        shown = bare.replace("::", " :: ").strip()   # the message shows the path as a token stream prints it
+        return Fault("rare", form, [f"Type '{shown}' doesn't match any type specified in trait instructions."])
     if form == "param_twice":
         zn = _fresh(g)
         pn = g.pick(["vars", "attribute", "impl_attribute", "inner_attribute", "skip_repeat", "stop_repeat"])
